@@ -782,9 +782,11 @@ def c15_sched_part(pid, tier, seed):
         if any(t["res"] for t in fam[c["k"]]):
             with_res += 1
         for (p, msg) in sched.oracle(c, ob, fam[c["k"]]):
-            if p == pid or (p == "*" and any(t["res"] for t in fam[c["k"]])):
+            relevant = any(t["res"] for t in fam[c["k"]]) if pid == "C15" else any(t.get("par") for t in fam[c["k"]])
+            if p == pid or (p == "*" and relevant):
                 if p == "*":
-                    msg = "a schedule whose systems view resources made the harness die inside the library: " + msg
+                    msg = ("a schedule whose systems view resources" if pid == "C15" else "a schedule with a parallel system") + \
+                          " made the harness die inside the library: " + msg
                 path = write_replay(pid, seed, {"property": pid, "kind": "failing-schedule-run", "message": msg,
                                                 "schedule_index": c["k"], "schedule": fam[c["k"]], "world": c["spec"],
                                                 "mode": c["mode"], "order": c["order"], "pool": c["pool"],
@@ -1034,6 +1036,18 @@ def c13_probe_part(pid, seed):
 
 
 def run_check(pid, tier, seed, t0):
+    if pid == "C09":
+        # "the outcome of a parallel system ... equals that of its sequential counterpart": also inside schedules
+        rc = wh_check(pid, tier, seed, t0)
+        rc2, n_, with_ = (0, 0, 0) if rc else c15_sched_part(pid, tier, seed)
+        ev = os.path.join(EVIDENCE, pid + ".json")
+        if os.path.exists(ev):
+            d = json.load(open(ev))
+            d.setdefault("coverage", {})["schedule_runs_judged_on_parallel_systems"] = n_
+            if rc2:
+                d["violations"] = max(1, d.get("violations", 0))
+            json.dump(d, open(ev, "w"), indent=1)
+        return rc or rc2
     if pid == "C05":
         rc = wh_check(pid, tier, seed, t0)
         rc2, info = (0, {}) if rc else c05_hygiene_part(pid, seed)
@@ -1103,7 +1117,7 @@ def run_check(pid, tier, seed, t0):
 
 
 def replay(pid, path):
-    if pid == "C15" and json.load(open(path)).get("kind") == "failing-schedule-run":
+    if pid in ("C15", "C09") and json.load(open(path)).get("kind") == "failing-schedule-run":
         return replay_sched(pid, path)
     if pid == "C05" and json.load(open(path)).get("kind") == "failing-program":
         print(json.dumps(json.load(open(path)), indent=1)[:2000])
